@@ -29,8 +29,9 @@
  *       this order and in non-decreasing time; none for inner nodes; at the end nothing is ready or running.
  * h_copy:  dr_copy_pi_dag with three conversion-time contraction settings (COPY_SCEN), then the same (c) and (b)
  *   obligations on the converted DAG, plus "shrinking preserves the totals": the root summary of the copy (t_1, t_inf,
- *   interval counts, edge counts) is the root summary of the original, the expected number of nodes remains, and the file
- *   names of the surviving nodes are the same strings.
+ *   interval counts, edge counts) is the root summary of the original, the expected number of nodes remains, every node
+ *   of the copy is one node of the original, and its start / end file indices lie inside the NEW string table and name the
+ *   same strings as in the original (three names; the first one occurs only in nodes that settings 1 and 2 prune).
  *
  * h_make:  the recorder-side flattening dr_make_pi_dag on the pointer-based DAG of the same shape and state, then the same
  *   (c) and (b) obligations on its result: the offsets are the ones the REAL dr_pi_dag_enum_nodes produces.
